@@ -40,6 +40,11 @@ func MakeConcr(d Dims) *Concr {
 		for i := 1; i < len(c.Keys); i++ {
 			c.Keys[i] = append([]byte{0}, byte(i))
 		}
+	case "aliasmerge":
+		// no separator and an empty first operand: Merge(k, m1) leaves the value as it is, so the
+		// aliasing merge operator (Dims.MergeAlias) hands back existingValue itself
+		c.Sep = ""
+		c.Tokens[11] = []byte{}
 	case "sized":
 		// values of very different sizes, so that the persisted segments fall into different
 		// levels of the store's leveled compaction and partial compactions get splice points > 0
